@@ -163,9 +163,8 @@ PROPS["C26"] = dict(
         "`impl Write for PDataWriter`::write verified as an inherent method (Verus rejects requires on trait impls)",
         "Drop for PDataWriter discards finish_impl's result by design; the public finish() propagates it",
     ],
-    uncovered=["AsyncPDataWriter (Poll/Pin/Context; no async support in either verifier) — by reading, its poll_write has the same "
-               "exact-fill Ok(0) behaviour that was fixed in the synchronous writer (S7); not repaired because no check can decide it",
-               "asynchronous P-DATA reader"],
+    uncovered=["AsyncPDataWriter and the asynchronous P-DATA reader deductively (Poll/Pin/Context; no async support in either verifier): only the "
+               "native unit C26.async runs them, which found and led to the repair of the exact-fill Ok(0) defect S20 (the asynchronous twin of S7)"],
 )
 
 # ----------------------------------------------------------------------- C08
